@@ -274,6 +274,13 @@ def extract_loop(ck):
     text = "\n".join(src[a:bs[0] + 1]) + "\n"
     if "reset_hydro_tasks" not in text or "#pragma omp parallel" not in text or "execute_task(" not in text:
         return None
+    # the model resets every task and queues the parentless ones BEFORE any worker runs (C07_reset_reestablishes_init is about the
+    # state at the start of the parallel region): the reset must precede the parallel region in the source
+    if text.index("reset_hydro_tasks") > text.index("#pragma omp parallel"):
+        ck.breaks.append("do_simulation resets the hydro tasks INSIDE the parallel worker region (reset_hydro_tasks after `#pragma omp parallel`): a worker can finish a task "
+                         "and decrement the parent counter of a task of a neighbouring subgrid that another thread has not reset yet - the decrement is lost and that task (and everything behind it) "
+                         "never runs in this step, or runs early in the next; the model's step starts from a completely reset table")
+        ck.c07_reset_in_region = True
     open(os.path.join(ck.scratch, "c07_loop.inc"), "w").write(text)
     return text
 
@@ -379,6 +386,9 @@ def run(ck):
     if getattr(ck, "real_loop", False):
         reps = 1 if ck.quick else 4
         treqs = [("T", l, 2 + ck.rng.below(7), 0) for (m, l, _, _) in reqs if m == "S" for _ in range(reps + (1 if self_neighbour(l) else 0))]
+        if getattr(ck, "c07_reset_in_region", False):
+            # search for a concrete failing run of the race between the reset and the workers: many subgrids, many threads, repeated
+            treqs += [("T", l, 16, 0) for l in ((8, 8, 8, 0, 0, 0), (10, 10, 10, 1, 1, 1), (12, 12, 12, 0, 0, 0)) for _ in range(6)]
         rc_t, tblocks = run_impl(ck, treqs, timeout=240 if ck.quick else 900)
         for (m, l, nt, sd), b in zip(treqs, tblocks):
             if "result" not in b:
